@@ -1187,3 +1187,17 @@ Lemma timeline_sampledur_refuted_witness :
   mpd_audio_timeline 0 0 [(60060, 3)] 30000 1024 0 0 44100
   = Panic "calcAudioTimeFromRef: integer divide by zero (audioFrameDur)".
 Proof. split; vm_compute; reflexivity. Qed.
+
+(** the other symptom: 2048-sample frames at 48 kHz ("mp4a.40.5", generated asset ghe2048), no default
+    sample duration: the MPD code works with 1024 and lists other durations than the images for the
+    frame duration 2048 with which the segments are cut *)
+Lemma timeline_sampledur_wrong_witness :
+  mpd_frame_dur 2048 0 0 48000 = 1024 /\
+  exists l, mpd_audio_timeline 0 0 [(180000, 3)] 90000 2048 0 0 48000 = Ok l /\
+            expand_s 0 l = [(0, 96256); (96256, 96256); (192512, 96256); (288768, 95232)] /\
+            map (image 90000 2048 48000) (expand_ref 0 [(180000, 3)])
+            = [(0, 96256); (96256, 96256); (192512, 96256); (288768, 96256)].
+Proof.
+  split; [vm_compute; reflexivity|]. eexists. split; [vm_compute; reflexivity|].
+  split; vm_compute; reflexivity.
+Qed.
